@@ -99,6 +99,16 @@ class Sub(Scalars):
     pass
 
 
+class AnyS(State):
+    # Any is stored as given (no conversion promised): argument mutators are not applied to it,
+    # but copy / deepcopy / updated / equality clauses are
+    v: Any
+    w: Sequence[int] = ()
+
+
+ALIASING_ALLOWED = {"AnyS"}
+
+
 _PROXY_SRC: dict[int, dict] = {}
 
 
@@ -133,6 +143,7 @@ CATALOGUE: dict[str, tuple[type, list]] = {
     "MapSeq": (MapSeq, [lambda: {"m": {"ab": [1, 2]}}]),
     "SeqMap": (SeqMap, [lambda: {"rows": [{"ab": 1}]}, lambda: {"rows": [_proxy({"ab": 1})]}]),
     "OptS": (OptS, [lambda: {}, lambda: {"o": [1]}]),
+    "AnyS": (AnyS, [lambda: {"v": [1, 2, 3]}, lambda: {"v": {"k": [1]}, "w": [4]}, lambda: {"v": range(3)}]),
 }
 
 # replacement values per (class, attribute): (valid other value builder, invalid value)
@@ -154,6 +165,7 @@ REPLACE: dict[str, dict[str, tuple]] = {
     "MapSeq": {"m": (lambda: {"q": [9]}, {"q": ["bad"]})},
     "SeqMap": {"rows": (lambda: [{"q": 9}], [{"q": "bad"}])},
     "OptS": {"o": (lambda: [9], ["bad"])},
+    "AnyS": {"v": (lambda: [7], None), "w": (lambda: [9], ["bad"])},
 }
 
 
@@ -225,6 +237,8 @@ def stored_mutators(inst) -> list[tuple[str, Any]]:
     out = []
     for k in type(inst).__ATTRIBUTES__:
         v = getattr(inst, k, None)
+        if type(inst).__name__ in ALIASING_ALLOWED and k == "v":
+            continue  # Any: stored as given
         if isinstance(v, Mapping):
             out.append((f"stored.{k}[new]=", lambda v=v: v.__setitem__("new", 99)))  # type: ignore[attr-defined]
         elif isinstance(v, (tuple, frozenset)):
@@ -252,7 +266,7 @@ def execute(program, ch: Chooser) -> Result:  # noqa: C901, PLR0912, PLR0915
     for a in [*attrs, "unknown_attr"]:
         ops.append((f"setattr {a}", ("set", a)))
         ops.append((f"delattr {a}", ("del", a)))
-    for label, fn in mutators(args):
+    for label, fn in mutators(args if name not in ALIASING_ALLOWED else {k: v for k, v in args.items() if k != "v"}):
         ops.append((f"mutate arg {label}", ("call", fn)))
     for label, fn in stored_mutators(inst):
         ops.append((f"mutate {label}", ("call-must-fail", fn)))
@@ -262,6 +276,8 @@ def execute(program, ch: Chooser) -> Result:  # noqa: C901, PLR0912, PLR0915
             ops.append((f"updated {','.join(subset) or '-'}", ("upd", subset, None)))
             ops.append((f"updated {','.join(subset) or '-'}+unknown", ("upd", subset, "unknown")))
             for bad in subset:
+                if rep[bad][1] is None:
+                    continue  # nothing is invalid for this attribute (Any)
                 ops.append((f"updated {','.join(subset)} invalid={bad}", ("upd", subset, ("bad", bad))))
             if len(subset) == 1 and _equal_but_invalid(getattr(inst, subset[0], None)) is not None:
                 # a replacement that compares == to the current value but has a type the
